@@ -20,7 +20,7 @@ def units(tier, seed):
         us.append({'name': f'lindig order {n}x{m}', 'fn': 'unit_lindig', 'args': {'n': n, 'm': m},
                    'split': 7 if n * m >= 9 else 0})
     us += _mk.table_units(t)
-    us += _mk.inductive_units(tier) + _mk.skeleton_units(tier, seed)
+    us += _mk.inductive_units(tier) + _mk.skeleton_kernel_units(tier, seed) + _mk.skeleton_units(tier, seed)
     return _mk.order(us)
 
 
